@@ -271,6 +271,22 @@ func ReactScenarios() []History {
 	)
 	add("pause-in-the-idle-gap", smallParams(), map[string]int64{"c1": 400}, ops...)
 
+	// amounts at the top of the SDK's integers, in messages that pass the stateless checks: a deposit of 2^255 - 1
+	// added to an existing one, a price of 5 * 10^76 whose minimum deposit is a multiple of it
+	ops = registry(map[string]int64{"p1": 5})
+	ops = append(ops,
+		Ev{Name: "UpdateBinding", Signer: "o1", Svc: "s1", Prov: "p1", Deposit: 1, DShape: "huge"},
+		Ev{Name: "UpdateBinding", Signer: "o1", Svc: "s1", Prov: "p1", HasPr: true, PrDenom: "HUGE"},
+		Ev{Name: "Bind", Signer: "o1", Svc: "s1", Prov: "p2", Deposit: 40, DShape: "ok", Pr: pr(3), Qos: 1, PrDenom: "HUGE"},
+		Ev{Name: "Bind", Signer: "o1", Svc: "s1", Prov: "p2", Deposit: 1, DShape: "huge", Pr: pr(3), Qos: 1},
+		Ev{Name: "Disable", Signer: "o1", Svc: "s1", Prov: "p1"},
+		Ev{Name: "Enable", Signer: "o1", Svc: "s1", Prov: "p1", Deposit: 1, DShape: "huge"},
+		Ev{Name: "Enable", Signer: "o1", Svc: "s1", Prov: "p1"},
+		Ev{Name: "Call", Signer: "c1", Svc: "s1", Provs: []string{"p1"}, Cap: 10, Timeout: 2},
+		eb(1), eb(1), eb(1),
+	)
+	add("amounts-at-the-top-of-the-integers", smallParams(), nil, ops...)
+
 	return hs
 }
 
